@@ -2,12 +2,13 @@
 # every claimed check whose inputs a seeded change touches, against a scratch copy of /repo with the change applied (never /repo);
 # the other checks read byte-identical text, their verdict is the unchanged tree's (OK).  -> seeded/<name>/matrix.txt
 # usage: tools/matrix2.sh '<glob under seeded/>' [parallel]
-cd /verif
+cd "$(dirname "$(realpath "$0")")/.."
+export VROOT=$PWD
 IDS=$(python3 -c "import json; print(' '.join(c['property_id'] for c in json.load(open('MANIFEST.json'))['checks']))")
 run_one() {
-  d=$1; name=$(basename $d); R=/var/tmp/seedrepos/$name
+  d=$1; name=$(basename $d); R=/var/tmp/seedrepos_m/$name
   rm -rf $R; mkdir -p $R; cp -r /repo/src /repo/Cargo.toml $R/
-  (cd $R && patch -p1 -s < /verif/$d/patch.diff) || { echo "patch failed" > $d/matrix.txt; return; }
+  (cd $R && patch -p1 -s < $VROOT/$d/patch.diff) || { echo "patch failed" > $d/matrix.txt; return; }
   REL=$(python3 tools/relevant_checks.py $d/patch.diff)
   : > $d/matrix.txt.tmp
   for id in $IDS; do
